@@ -20,20 +20,31 @@ within `η = 1/2 + ε` units) is carried through the verified topological traver
   forward/backward link weights and totals of the lattice over ℝ for the link weights `B^(sc l)`
   (`B` = base of the log domain, `sc l` = the scaled integer link score the C code adds); they satisfy
   `forward total = backward total` and `alpha·beta ≤ total`.
-* `C12_int_passes_close` (any log-add with the laws `LaddLaw`): every integer alpha, beta, the
-  normaliser and the integer backward total are `Close` to their exact counterparts within their budgets.
-* `C12_int_posterior_close`, `C12_int_totals_close`: link posterior within `budA + budB + budN` of the exact
-  posterior (which lies in `(0,1]`), forward total within `budN + budW` of the backward total.
+* `C12_int_passes_close` (any log-add with the laws `LaddLaw`, any budgets with the budget conditions
+  `BudA`/`BudB`): every integer alpha, beta, the normaliser and the integer backward total are `Close` to
+  their exact counterparts within their budgets.
+* `C12_int_posterior_close`, `C12_int_totals_close`: link posterior within `E l + E' l + EN` of the exact
+  posterior (which lies in `(0,1]`), forward total within `EN + EW` of the backward total.
+* `C12_alphaInt_refines_exact`: the integer passes are — by definition — the `(logmath_add, +, log-zero, 0)`
+  instance of the generic passes `alphaGen`/`betaGen`/`normGen`/`bwdGen` (`Model/LatticeRound.lean`); the
+  `(+, *, 0, 1)` instance over ℕ of the same passes (run by the driver on every dumped lattice) computes the
+  exact model `alphaLink`/`betaLink`/`forwardTotal`/`backwardTotal` of `C12_exact_forward_backward`; for
+  natural weights the real exact weights are the casts of the model's.
 * For `logmath_add` with the decoder's regenerated table (`cfgDec`, laws discharged from C19) the same in
   real logarithms (`C12_int_passes_accurate_dec`, `C12_int_posterior_accurate_dec`) and as pure integer
   inequalities with `η ≤ 51/100` (`C12_int_posterior_le_one_plus_budget`,
-  `C12_int_forward_backward_totals_agree`); `C12_int_link_posterior_ge_path_posterior` is the lower
-  sandwich: a link posterior is never below the posterior of a start→end path through the link.
+  `C12_int_forward_backward_totals_agree`: explicit budgets `budA`, `budB`, `budN`, `budW`);
+  `C12_int_link_posterior_ge_path_posterior` is the lower sandwich: a link posterior is never below the
+  posterior of a start→end path through the link.
+* `C12_round_checked`, `C12_old_hyps_checked`: the same conclusions (and those of the older integer-pass and
+  A\* theorems of `Props/C12.lean`) from the Boolean checkers `roundHypsB`, `budOKB`, `remOKB` that
+  `ssdriver c12r` evaluates on every dumped lattice (soundness: `Proofs/LatticePostCheck.lean`).
 
-Hypotheses (`RoundHyps`, decidable, evaluated on every dumped lattice by the check): the lattice
-satisfies the C11 predicate; no path prefix/suffix score is at or below log-zero (else `logmath_add` treats
-a non-zero probability as zero); path scores plus `6932` per log-addition stay below `2^31` (so that every
-intermediate value is in the `int32` range on which C19 proves the accuracy).
+Hypotheses (`RoundHyps L sc KB`): the lattice satisfies the C11 predicate; no path prefix/suffix score is at
+or below log-zero (else `logmath_add` treats a non-zero probability as zero); path scores plus `6932` per
+log-addition stay below `2^31` — forward: one addition per link plus the normaliser's, backward: `KB`, a
+bound of all backward budgets (`budKB L`) — so that every intermediate value is in the `int32` range on
+which C19 proves the accuracy.
 -/
 namespace SSVerif.Lattice
 open SSVerif.Nfa SSVerif.LogAdd
